@@ -122,9 +122,9 @@ func gen(seed int64, n int, tier string) []interface{} {
 		if k%8 == 5 {
 			in.Via = "cli"
 		}
-		mentionQuota := k%7 == 3  // returns that mention null without returning it (known finding): a minority of cases
-		gluedQuota := k%11 == 6   // the glued-head name shape (known finding)
-		freeQuota := k%13 == 9    // don't-care shapes: digits, ?: with null, qualified annotation
+		mentionQuota := k%7 == 3 // returns that mention null without returning it (known finding): a minority of cases
+		gluedQuota := k%11 == 6  // the glued-head name shape (known finding)
+		freeQuota := k%13 == 9   // don't-care shapes: digits, ?: with null, qualified annotation
 		nc := 1 + r.Intn(4)
 		if in.Via == "cli" && nc < 2 && r.Intn(4) != 0 {
 			nc = 2
